@@ -45,7 +45,8 @@ from ..cfg import CFG
 from ..core import (AnalysisError, call_name, const_str, find_calls, kwarg,
                     last_attr, names_in, short, txt, walk)
 from ..lib_C11 import (NP, ClassModel, Func, Interp, ModelRaise,
-                       ModuleInterp, Namespace, NdArray, module_level)
+                       ModuleEnvs, ModuleInterp, Namespace, NdArray,
+                       module_level)
 
 ASSUMPTIONS = [
     "NOT decided: the closure 'whatever the writer/export/CLI produce is "
@@ -122,6 +123,11 @@ class H5Group(dict):
         self.file = file
         self.name = name
         self.attrs = {}
+
+    def require_group(self, name):
+        if name not in self:
+            self[name] = H5Group(self.file, f"{self.name.rstrip('/')}/{name}")
+        return self[name]
 
 
 class Cfg(dict):
@@ -222,7 +228,11 @@ class Model:
         self.cfgkeys = fold_config_keys(repo)
         self.tree = repo.tree(CHK)
         self.cls = repo.cls(CHK, "IntegrityChecker")
-        g = {}
+        # names of check.py and of the repository modules it imports
+        # resolve by definition; numpy / h5py stand-ins are shared by all
+        # files
+        self.envs = ModuleEnvs(repo, self.interp)
+        g = self.envs.fresh(CHK)
         self.globs = g
 
         self.icue = ClassModel(repo.cls(CHK, "ICue"), g, self.interp)
@@ -243,12 +253,14 @@ class Model:
         g["np"] = Namespace("np", all=np_all, arange=np_arange, sum=np_sum,
                             diff=NP.diff, array=NP.array,
                             asarray=NP.asarray)
+        self.envs.shared["np"] = g["np"]
         self.feature_exists = load_feature_logic(repo)
         g["dfn"] = Namespace(
             "dfn", config_keys=self.cfgkeys,
             feature_exists=self.feature_exists,
             scalar_feature_exists=lambda f: f in KNOWN_FEATURES)
         g["h5py"] = Namespace("h5py", Dataset=H5Dataset, Group=H5Group)
+        self.envs.shared["h5py"] = g["h5py"]
         g["RTDC_HDF5"] = Ds
         g["RTDC_Hierarchy"] = OtherDs
         # literal module constants
@@ -377,7 +389,7 @@ def collected_sets(model, chk):
                 return []
             f.model_callable = True
             return f
-        g = dict(model.globs)
+        g = model.globs.copy_with()
         g["IntegrityChecker"] = ClassModel(
             model.cls, g, model.interp,
             **{"__dict__": {n: rec(n) for n in model.methods}})
@@ -405,9 +417,7 @@ def r131_reader(ctx, repo, model):
     a model file with truncated (zero-length) datasets"""
     cls = repo.cls(EVT, "H5Events")
     interp = model.interp
-    g = {"dfn": model.globs["dfn"], "np": model.globs["np"],
-         "h5py": model.globs["h5py"]}
-    module_level(repo.tree(EVT), g, interp, assigns=False)
+    g = model.envs.fresh(EVT, dfn=model.globs["dfn"])
     cm = ClassModel(cls, g, interp)
     file = object()
     h5 = H5Group(file)
@@ -471,8 +481,7 @@ def r131_defect(ctx, repo, model):
     older = f"{b[0]}.{b[1]}.{b[2] - 1}" if b[2] else None
     newer = f"{b[0]}.{b[1]}.{b[2] + 1}"
     interp = model.interp
-    g = {"parse_version": vt}
-    module_level(repo.tree(FDEF), g, interp, assigns=False)
+    g = model.envs.fresh(FDEF, parse_version=vt)
 
     def run(version):
         file = object()
@@ -994,7 +1003,7 @@ def r132(ctx, repo, model, pattern, chk):
                 return [n]
             f.model_callable = True
             return f
-        g = dict(model.globs)
+        g = model.globs.copy_with()
         g["IntegrityChecker"] = ClassModel(
             model.cls, g, model.interp,
             **{"__dict__": {n: rec(n) for n in names}})
@@ -1059,7 +1068,7 @@ def r132(ctx, repo, model, pattern, chk):
         return model.base()
     ws = Namespace("catch")
     ws.__dict__["__enter__"] = lambda: []
-    g = dict(model.globs)
+    g = model.globs.copy_with()
     g.update(load_file=load_file, RTDCBase=type(model.base()),
              warnings=Namespace("warnings",
                                 catch_warnings=lambda **k: ws,
@@ -1261,7 +1270,7 @@ def r132(ctx, repo, model, pattern, chk):
         me.__dict__["__enter__"] = lambda: me
         return me
     checker.model_callable = True
-    g = dict(model.globs)
+    g = model.globs.copy_with()
     g["IntegrityChecker"] = checker
     model.interp.steps = 0
     try:
@@ -1328,13 +1337,13 @@ def r132(ctx, repo, model, pattern, chk):
             return result
         check_dataset_.model_callable = True
         quiet = lambda *a, **k: None   # noqa: E731
-        g = {"sys": Namespace("sys", exit=sys_exit),
-             "check_dataset": check_dataset_,
-             "common": Namespace("common", print_info=quiet,
-                                 print_alert=quiet, print_violation=quiet),
-             "fmt_tdms": Namespace("fmt_tdms"),
-             "pathlib": Namespace("pathlib", Path=lambda p: p)}
-        module_level(repo.tree(CLI), g, model.interp, assigns=False)
+        g = model.envs.fresh(
+            CLI, sys=Namespace("sys", exit=sys_exit),
+            check_dataset=check_dataset_,
+            common=Namespace("common", print_info=quiet, print_alert=quiet,
+                             print_violation=quiet),
+            fmt_tdms=_ExcModule(),
+            pathlib=Namespace("pathlib", Path=lambda p: p))
         path = Namespace("path", exists=lambda: exists,
                          resolve=lambda: path)
         model.interp.steps = 0
@@ -1390,6 +1399,19 @@ def r132(ctx, repo, model, pattern, chk):
            key=f"{CLI}::verify_dataset::early exit code", nontrivial=False)
 
 
+class _ExcModule:
+    """module stand-in whose attributes are (distinct) exception classes"""
+    model_object = True
+
+    def __init__(self):
+        self.classes = {}
+
+    def model_getattr(self, attr):
+        if attr not in self.classes:
+            self.classes[attr] = type(attr, (Exception,), {})
+        return self.classes[attr]
+
+
 def _falls_off(cfg):
     """True if the normal exit is reachable without passing a return"""
     return not cfg.must_pass(
@@ -1429,8 +1451,7 @@ FEATSETS = ["deform", "volume", "image", "mask", "trace", "fl1_max"]
 def r133(ctx, repo, model):
     rm = repo.func(WR, "RTDCWriter.rectify_metadata")
     interp = model.interp
-    g = {"h5py": Namespace("h5py", Dataset=H5Dataset, Group=H5Group)}
-    module_level(repo.tree(WR), g, interp, assigns=False)
+    g = model.envs.fresh(WR)
     writer = ClassModel(repo.cls(WR, "RTDCWriter"), g, interp,
                         strict_instances=True)
     fails = {"event count": [], "roi size": [], "samples per event": [],
@@ -1541,24 +1562,47 @@ def r133(ctx, repo, model):
            f"misses {sorted(announced - written) or 'nothing'} of the keys "
            "its docstring announces", node=rm,
            label="keys announced in the docstring")
-    # __exit__ runs it
+    # __exit__ runs it: interpreted with recording stand-ins for
+    # rectify_metadata / version_brand / close (helper methods followed)
     ex = repo.func(WR, "RTDCWriter.__exit__")
-    calls = find_calls(ex, attr="rectify_metadata")
-    ok = len(calls) == 1
-    if ok:
-        guards = []
-        p = calls[0].parent
-        while p is not ex:
-            if isinstance(p, ast.If):
-                guards.append(txt(p.test))
-            if isinstance(p, ast.ExceptHandler):
-                ok = False
-            p = p.parent
-        ok = ok and all("events" in gd and "len" in gd for gd in guards)
-    ctx.ob("R13.3", ok, "leaving the writer context rectifies the metadata "
-           "whenever events exist" if ok else "the writer context no "
-           "longer rectifies the metadata of every file with events",
-           node=ex, label="exit rectifies")
+    for n_feat in (1, 3, 0):
+        calls = []
+        file = object()
+        h5 = H5Group(file)
+        if n_feat:
+            h5["events"] = H5Group(file, "/events")
+            for i in range(n_feat):
+                h5["events"][f"f{i}"] = H5Dataset((N,), file)
+
+        def mk(nm):
+            def rec(*a, **k):
+                calls.append(nm)
+            rec.model_callable = True
+            return rec
+        me = writer.instance(h5file=h5, path="model.rtdc",
+                             rectify_metadata=mk("rectify"),
+                             version_brand=mk("brand"), close=mk("close"),
+                             owns_path=True)
+        interp.steps = 0
+        try:
+            Func(ex, g, interp)(me, None, None, None)
+            err = None
+        except ModelRaise as e:
+            err = e.name
+        want = 1 if n_feat else 0
+        ok = err is None and calls.count("rectify") == want and (
+            not want or "close" not in calls
+            or calls.index("rectify") < calls.index("close"))
+        ctx.ob("R13.3", ok,
+               f"leaving the writer context with {n_feat} feature(s) "
+               + ("rectifies the metadata before the file is closed"
+                  if want else "does not fail on the empty file") if ok
+               else f"leaving the writer context with {n_feat} feature(s): "
+               + (f"raises {err}" if err else f"calls {calls}")
+               + " - the writer context no longer rectifies the metadata of "
+               "every file with events", node=ex,
+               key=f"{WR}::RTDCWriter.__exit__::exit rectifies "
+               f"({n_feat} features)")
 
 
 class Img(Namespace):
@@ -1613,7 +1657,7 @@ def r133_images(ctx, repo, model):
                          float32=F32, bytes_=lambda x: x,
                          expand_dims=lambda a, axis=0: Img(
                              (1,) + a.shape, a.dtype))}
-    module_level(repo.tree(WR), g, interp, assigns=False)
+    g = model.envs.fresh(WR, **g)
     writer = ClassModel(repo.cls(WR, "RTDCWriter"), g, interp,
                         strict_instances=True)
     cases = [("write_image_grayscale", "2-d boolean mask", (H, W), bool,
@@ -1692,7 +1736,7 @@ def run(ctx):
              "routing; CLI exit codes as documented", minimum=40)
     ctx.rule("R13.3", "metadata derived by rectify_metadata satisfy the "
              "checker on every model feature set; docstring keys; run on "
-             "exit", minimum=6)
+             "exit", minimum=8)
     model = _guard("model", Model, repo)
     pattern, chk = collector_pattern(repo)
     sets = _guard("R13.2", collected_sets, model, chk)
@@ -2338,4 +2382,40 @@ TWINS = list(TWINS) + [
       '            ["setup", "channel width"],\n'
       '            ["imaging", "pixel size"],\n'
       '            ["imaging", "frame rate"],\n')),
+]
+
+# round-6 refactorings (reduced; the full diffs are replayed from
+# campaign/refactorings_round6 by the thorough tier)
+TWINS = list(TWINS) + [
+    ("writer: protected body of __exit__ in a helper method", WR,
+     [("        try:\n            self.h5file.require_group(\"events\")\n"
+       "            if len(self.h5file[\"events\"]):\n"
+       "                self.rectify_metadata()\n"
+       "            self.version_brand()\n",
+       "        try:\n            self._finalize_h5file()\n"),
+      ("    @staticmethod\n    def get_best_nd_chunks(",
+       "    def _finalize_h5file(self):\n"
+       "        self.h5file.require_group(\"events\")\n"
+       "        if len(self.h5file[\"events\"]):\n"
+       "            self.rectify_metadata()\n"
+       "        self.version_brand()\n\n"
+       "    @staticmethod\n    def get_best_nd_chunks(")]),
+    ("CLI: exit codes as module constants", CLI,
+     [("def verify_dataset(path_in=None):",
+       "EXIT_ERROR = 4\n\n\ndef verify_dataset(path_in=None):"),
+      ("    exit_status = 4\n", "    exit_status = EXIT_ERROR\n"),
+      ("        return sys.exit(4)", "        return sys.exit(EXIT_ERROR)")]),
+]
+MUTANTS = list(MUTANTS) + [
+    ("writer: helper of __exit__ forgets to rectify", WR,
+     [("        try:\n            self.h5file.require_group(\"events\")\n"
+       "            if len(self.h5file[\"events\"]):\n"
+       "                self.rectify_metadata()\n"
+       "            self.version_brand()\n",
+       "        try:\n            self._finalize_h5file()\n"),
+      ("    @staticmethod\n    def get_best_nd_chunks(",
+       "    def _finalize_h5file(self):\n"
+       "        self.h5file.require_group(\"events\")\n"
+       "        self.version_brand()\n\n"
+       "    @staticmethod\n    def get_best_nd_chunks(")], "R13.3"),
 ]
